@@ -29,6 +29,11 @@ KINDS = {
 }
 
 
+# a valid default of each kind for the *earlier, untyped* declaration of route allof_any_base
+BASE_DEFAULT = {"string": "zqbase", "date": "1999-09-09", "datetime": "1999-09-09T09:09:09+00:00", "uuid": "00000000-0000-4000-8000-0000000000bb", "integer": 77, "number": 7.75, "boolean": True,
+                "enum_str": "b", "enum_int": 2, "union": 77}
+
+
 def is_num(v):
     return isinstance(v, (int, float)) and not isinstance(v, bool)
 
@@ -206,14 +211,18 @@ def main() -> int:
             for vi, v in enumerate(VALUES):
                 if nonfinite is not None and (isinstance(v, float) and not math.isfinite(v)) != nonfinite:
                     continue
-                for route in ("direct", "ref", "allof", "query", "header", "cookie"):
+                for route in ("direct", "ref", "allof", "allof_any_base", "shared_enum_name", "query", "header", "cookie"):
                     if route in ("header",) and kind not in ("string", "integer", "number", "boolean", "enum_str", "enum_int"):
                         continue
                     if route == "cookie" and kind not in ("string", "enum_str"):
                         continue
                     if route in ("query", "header", "cookie") and vi % 2 and quick:
                         continue
-                    key = f"K{vi}{route[0].upper()}"
+                    if route == "shared_enum_name" and kind not in ("enum_str", "enum_int"):
+                        continue
+                    if route == "allof_any_base" and (kind not in BASE_DEFAULT or BASE_DEFAULT[kind] == v or (quick and vi % 2 == 0)):
+                        continue
+                    key = f"K{vi}{ {'allof_any_base': 'Y', 'shared_enum_name': 'N'}.get(route, route[0].upper())}"
                     sch = dict(schema, default=v)
                     if route == "direct":
                         comps[key] = {"type": "object", "properties": {"p": sch}}
@@ -222,6 +231,16 @@ def main() -> int:
                             continue
                         comps[key + "T"] = dict(schema)
                         comps[key] = {"type": "object", "properties": {"p": {"allOf": [{"$ref": f"#/components/schemas/{key}T"}], "default": v}}}
+                    elif route == "allof_any_base":
+                        # declared first without a type but with another default; the later, typed declaration decides
+                        comps[key + "B"] = {"type": "object", "properties": {"p": {"description": "untyped first", "default": BASE_DEFAULT[kind]}}}
+                        comps[key] = {"allOf": [{"$ref": f"#/components/schemas/{key}B"}, {"type": "object", "properties": {"p": sch}}]}
+                    elif route == "shared_enum_name":
+                        # a component enum whose name equals the class name derived for the inline property (same values, no default
+                        # of its own), and a sibling property sharing a title: each declaration keeps its own default
+                        comps[key + "P"] = dict(schema)
+                        other = [x for x in schema["enum"] if x != v] or schema["enum"]
+                        comps[key] = {"type": "object", "properties": {"p": sch, "q": dict(schema, title=f"T{key}", default=other[0]), "r": dict(schema, title=f"T{key}", default=schema["enum"][0])}}
                     elif route == "allof":
                         comps[key + "B"] = {"type": "object", "properties": {"p": dict(schema)}}
                         comps[key] = {"allOf": [{"$ref": f"#/components/schemas/{key}B"}, {"type": "object", "properties": {"p": sch}}]}
